@@ -42,7 +42,9 @@ func c18InitFacts(r *core.R, c *c18Ctx, lit *c18Lit) *c18InitResult {
 				env := c18NewFlowEnv(r, c, lit, res.writes)
 				env.stack, env.active = []*ast.CallExpr{call}, []*ast.FuncDecl{fd2}
 				if _, rv, ret := env.flow(fd2, st); ret {
-					st = st.with(c.table, rv)
+					if !rv.errPath {
+						st = st.with(c.table, rv.uf)
+					}
 					env.reach = true
 				}
 				collect(env)
@@ -69,6 +71,10 @@ func c18InitFacts(r *core.R, c *c18Ctx, lit *c18Lit) *c18InitResult {
 		st = out
 	}
 	res.final = st.f[c.table]
+	if res.final.errv != nil {
+		res.reasons = append(res.reasons, fmt.Sprintf("the table is filled from a call that can fail, and the error %s is not ruled out (tested against nil with a panic or return) before initialisation ends", res.final.errv.Name()))
+		res.final = c18UF{}
+	}
 	// helpers are analysed once per call and fixpoint round: keep the last diagnosis of each loop
 	last := map[token.Pos]int{}
 	var ls []c18LoopDiag
